@@ -2546,6 +2546,30 @@ def lib_nt_replace(ev, a, k, n, mod):
 lib_nt_replace.kw = None
 
 
+def _qha_unit(tok):
+    """unit tokens of qha.unit_conversion function names"""
+    table = {"j": "J", "ev": "eV", "ry": "Ry", "gpa": "GPa", "megabar": "Mbar", "b3": "bohr^3", "a3": "angstrom^3", "ry_b3": "Ry/bohr^3",
+             "ev_a3": "eV/angstrom^3", "ev_b3": "eV/bohr^3", "ry_a3": "Ry/angstrom^3"}
+    if tok not in table:
+        return None
+    try:
+        return U.parse_unit_string(table[tok])
+    except Exception:
+        return None
+
+
+def lib_qha_convert(name):
+    """qha.unit_conversion.<a>_to_<b>(value): a number of units a -> the same quantity as a number of units b"""
+    src_, _, dst = name.partition("_to_")
+    ua, ub = _qha_unit(src_), _qha_unit(dst)
+
+    def f(ev, a, k, n, mod):
+        if ua is None or ub is None:
+            raise ev.err(f"qha.unit_conversion.{name}: unit not in T-UNITS", n, mod)
+        return as_sym(a[0]) * ua / ub
+    return f
+
+
 def lib_resource_filename(ev, a, k, n, mod):
     """pkg_resources.resource_filename(package, name): a path inside the installed package"""
     from .fsmodel import PathV
@@ -3055,6 +3079,9 @@ def lib_result_type(ev, a, k, n, mod):
     raise ev.err("numpy.result_type of non-floating types", n, mod)
 
 
+for _nm in ("j_to_ev", "ev_to_j", "gpa_to_megabar", "megabar_to_gpa", "b3_to_a3", "a3_to_b3", "ry_to_ev", "ev_to_ry", "ry_to_j", "j_to_ry",
+            "gpa_to_ev_a3", "ev_a3_to_gpa", "gpa_to_ry_b3", "ry_b3_to_gpa", "gpa_to_ev_b3", "ev_b3_to_gpa"):
+    LIB.setdefault(f"qha.unit_conversion.{_nm}", lib_qha_convert(_nm))
 LIB.update({"map": lib_map, "numpy.result_type": lib_result_type, "numpy.promote_types": lib_result_type})
 
 
